@@ -86,6 +86,10 @@ func (fs *Filesystem) MkdirTemp(dir, pattern string) (string, error) {
 		if err != nil {
 			return "", err
 		}
+	} else if fs.base != "" {
+		// The host's default directory for temporary files lies outside the
+		// base directory
+		dir = fs.base
 	}
 	result, err := os.MkdirTemp(dir, pattern)
 	if err != nil {
